@@ -459,9 +459,10 @@ func termsB(quick bool) []termB {
 		{"10.0.0.2", "ip"},
 		{"10.0.0", "ip-part"},
 		{"zz-no-match", "no-match"},
+		{"ПРИМЕР.РФ", "idn-unicode-upper-case"},
 	}
 	if !quick {
-		ts = append(ts, termB{"ПРИМЕР.РФ", "idn-unicode-upper-case"}, termB{`"alice laptop"`, "client-name-quoted-with-space"},
+		ts = append(ts, termB{`"Пример.рф"`, "idn-unicode-mixed-case-quoted"}, termB{`"alice laptop"`, "client-name-quoted-with-space"},
 			termB{"2001:db8::", "ip6-part"}, termB{`"xn--e1afmkfd.xn--p1ai"`, "idn-punycode-quoted"}, termB{"Пример", "idn-unicode-label"})
 	}
 	return ts
